@@ -297,7 +297,16 @@ int cmdRandom(int argc, char** argv) {
 	}
 	{ Out trunc(outPath); }
 	size_t events = 0, crashes = 0;
-	for (auto& fn : chosen) {
+	// every file as loaded, and (every other one) with a new model created in the object that held it
+	std::vector<std::pair<std::string, bool>> runs;
+	for (size_t i = 0; i < chosen.size(); i++) {
+		runs.emplace_back(chosen[i], false);
+		if (i % 2 == 0) runs.emplace_back(chosen[i], true);
+	}
+	for (auto& run : runs) {
+		const std::string src = run.first;
+		const bool recreate = run.second;
+		const std::string fn = recreate ? src + " (then Create() in the same object)" : src;
 		uint64_t caseSeed = rng();
 		std::string why;
 		int rc = forkRun(
@@ -305,7 +314,11 @@ int cmdRandom(int argc, char** argv) {
 				std::mt19937_64 r(caseSeed);
 				FILE* out = fopen(outPath.c_str(), "a");
 				NifFile nif;
-				if (nif.Load(samplePath(fn)) != 0) { fclose(out); return 0; }
+				if (nif.Load(samplePath(src)) != 0) { fclose(out); return 0; }
+				if (recreate) {
+					NiVersion v = nif.GetHeader().GetVersion();
+					nif.Create(v);
+				}
 				auto& hdr = nif.GetHeader();
 				for (size_t s = 0; s < steps; s++) {
 					// every third step is a NifFile-level edit on nodes and shapes (a composite of the header operations)
